@@ -174,6 +174,15 @@ func (op *Operation) popClosestUnqueried() types.AddrMaybeId {
 }
 
 func (op *Operation) haveQuery() bool {
+	// An address can be reported under several IDs before it is first queried. Discard the
+	// candidates left behind for an address that has since been queried, so it's never asked twice.
+	for op.unqueried.Len() != 0 {
+		cu := op.closestUnqueried()
+		if _, ok := op.queried[addrString(cu.Addr.String())]; !ok {
+			break
+		}
+		op.unqueried = op.unqueried.Delete(cu)
+	}
 	if op.unqueried.Len() == 0 {
 		return false
 	}
